@@ -45,17 +45,24 @@ class Assembly:
         return len(self.lines) + 1
 
     # -------------------------------------------------------------------------------------------
-    def process(self, tmpl_path):
-        src = open(tmpl_path).read().split('\n')
+    def process(self, tmpl_path, params=None):
+        text = open(tmpl_path).read()
+        for k, v in (params or {}).items():       # `//@include file K=V`: @K@ in the included file is replaced (used for label prefixes)
+            text = text.replace('@%s@' % k, v)
+        src = text.split('\n')
         i = 0
         while i < len(src):
             ln = src[i]
             s = ln.strip()
             if s.startswith('//@include '):
                 rel = s[len('//@include '):].strip()
+                params = {}
+                if ' ' in rel:
+                    rel, rest = rel.split(None, 1)
+                    params = dict(x.split('=', 1) for x in rest.split())
                 self.includes.append(rel)
                 sub = Assembly(self.pid, self.repo, self.tier)
-                sub.process(os.path.join(VERIF, rel))
+                sub.process(os.path.join(VERIF, rel), params)
                 # merge
                 base = len(self.lines)
                 self.lines.extend(sub.lines)
@@ -122,12 +129,17 @@ class Assembly:
             elif s.startswith('//@fn '):
                 a = _args(s[len('//@fn '):])
                 j = i + 1
-                sections = {'spec': [], 'prologue': [], 'loops': {}, 'closures': {}, 'subs': [], 'sigsubs': []}
+                sections = {'spec': [], 'prologue': [], 'epilogue': [], 'sig': [], 'stages': [], 'loops': {}, 'closures': {}, 'subs': [], 'sigsubs': []}
                 cur = None
                 while src[j].strip() != '//@end':
                     t = src[j].strip()
                     if t == '//@spec': cur = sections['spec']
                     elif t == '//@prologue': cur = sections['prologue']
+                    elif t == '//@epilogue': cur = sections['epilogue']
+                    elif t == '//@sig': cur = sections['sig']
+                    elif t.startswith('//@stage '):
+                        st = _args(t[len('//@stage '):]); st['proof'] = []
+                        sections['stages'].append(st); cur = st['proof']
                     elif t.startswith('//@loop '):
                         cur = sections['loops'].setdefault(int(t.split()[1]), [])
                     elif t.startswith('//@closure '):
@@ -203,6 +215,14 @@ class Assembly:
             body = ''.join((nm if (t.kind == 'ident' and t.text == 'self') else t.text) for t in toks)
             log.append(('R14 mut-self receiver -> named parameter', c + 1))
         sig = X.strip_attrs(sig)
+        if sec.get('sig'):
+            # R17: the signature is re-typed onto shim types (e.g. `impl Stream<Item = X>` -> `VStream<X>`); the replacement is given
+            # by the template and must declare the same function name and the same parameter names in the same order
+            new_sig = '\n'.join(sec['sig']).rstrip()
+            if X.sig_params(new_sig) != X.sig_params(sig):
+                raise Undecided('fn %s: parameters %s no longer match the re-typed signature %s' % (a['name'], X.sig_params(sig), X.sig_params(new_sig)))
+            sig = new_sig
+            log.append(('R17 signature re-typed onto shim types (names/arity checked)', 1))
         if 'ret' in a:
             sig = X.name_return(sig, a['ret'])
         if 'rename' in a:
@@ -212,8 +232,12 @@ class Assembly:
         # loops / closures
         body = X.splice_closures(body, {k: '\n'.join(v) for k, v in sec['closures'].items()})
         body = X.splice_loops(body, {k: '\n'.join(v) for k, v in sec['loops'].items()})
+        for st in sec.get('stages', []):
+            body = X.r18_stage(body, st['name'], st['before'], '\n'.join(st['proof']), a['name'])
+            log.append(('R18 let-introduction: the receiver of `%s` in the body\'s tail method chain is bound to `%s` (proof-only hint follows)' % (st['before'], st['name']), 1))
         spec = '\n'.join(sec['spec']).rstrip()
         prologue = '\n'.join(sec['prologue']).rstrip()
+        epilogue = '\n'.join(sec.get('epilogue', [])).rstrip()
         # body text begins with '{'
         b = body.lstrip()
         assert b.startswith('{')
@@ -230,7 +254,14 @@ class Assembly:
             self.emit('{')
             if prologue:
                 self.emit(prologue)
-            self.emit(inner)
+            if epilogue:
+                # proof-only epilogue: the body's value is bound, the proof block runs, the value is returned (`inner` ends with the closing brace)
+                self.emit('let vx_ret = {')
+                self.emit(inner.rstrip()[:-1] + '};')
+                self.emit(epilogue)
+                self.emit('vx_ret }')
+            else:
+                self.emit(inner)
             self.fn_ranges.append((label + ('__vac' if twin else ''), start, self.cur_line() - 1, twin))
 
         emit_one(sig, spec, False)
